@@ -159,3 +159,119 @@ func oneOrAnchor(c *Ctx, id string, fn *ssa.Function, what string) bool {
 	}
 	return true
 }
+
+// withCancelByHandleField maps, for instancePool.runAsync, the name of each
+// handle field that receives a cancel function to the context.WithCancel call
+// that produced it.
+func withCancelByHandleField(runAsync *ssa.Function) map[string]*ssa.Call {
+	out := map[string]*ssa.Call{}
+	EachInstr(runAsync, func(in ssa.Instruction) {
+		st, ok := in.(*ssa.Store)
+		if !ok {
+			return
+		}
+		fa, ok := st.Addr.(*ssa.FieldAddr)
+		if !ok {
+			return
+		}
+		fv, _ := FieldOf(fa)
+		if fv == nil {
+			return
+		}
+		for _, r := range Roots(st.Val, false) {
+			if cl, idx := CallOfValue(r); cl != nil && idx == 1 && MatchCC(&cl.Call, sWithCancel) {
+				out[fv.Name()] = cl
+			}
+		}
+	})
+	return out
+}
+
+// aggregatorContextRule decides that the aggregator outlives the instances:
+// the context handed to Aggregator.Run in runAsync (1) is the first result of a
+// context.WithCancel whose parent cannot be cancelled from outside
+// (context.WithoutCancel / context.Background), (2) its cancel function is
+// stored in a handle field, and (3) that field is called only by
+// checkAllInstancesAreFinished, after the run results were all awaited.
+func aggregatorContextRule(c *Ctx, id string, runAsync *ssa.Function) {
+	P := c.P
+	key := fk(runAsync)
+	var run *ssa.Call
+	for _, g := range runAsync.AnonFuncs {
+		EachInstr(g, func(in ssa.Instruction) {
+			if cl, ok := in.(*ssa.Call); ok && MatchCC(&cl.Call, Spec{"./core", "Aggregator", "Run"}) {
+				run = cl
+			}
+		})
+	}
+	if run == nil {
+		c.Anchor(id, "the goroutine of runAsync that calls Aggregator.Run")
+		return
+	}
+	wcOf := withCancelByHandleField(runAsync)
+	var field string
+	var wc *ssa.Call
+	for f, cl := range wcOf {
+		if DerivesOnly(run.Call.Args[0], false, IsResultOf(cl, 0)) {
+			field, wc = f, cl
+		}
+	}
+	if wc == nil {
+		c.Bad(id, key+":Aggregator.Run-context-has-its-own-cancel", run.Pos(), "the context of Aggregator.Run must be the result of a context.WithCancel of runAsync whose cancel function is kept in the run handle")
+		return
+	}
+	// (1) parent not cancellable from outside
+	detached := DerivesOnly(wc.Call.Args[0], false, func(v ssa.Value) bool {
+		cl, _ := CallOfValue(v)
+		return cl != nil && MatchCC(&cl.Call, Spec{"context", "", "WithoutCancel"}, Spec{"context", "", "Background"})
+	})
+	c.Check(detached, id, key+":Aggregator.Run-not-cancelled-with-the-run", run.Pos(),
+		"the aggregator's context must not be a child of the pool/run context: when the run is cancelled (signal, failure of another pool) instances still report the shots in flight, and an aggregator cancelled at the same moment drains and returns before them (samples lost)")
+	// (3) who may call the cancel field
+	checkAll := P.Func("core/engine", "runAwaitHandle", "checkAllInstancesAreFinished")
+	sp := P.SSAPkg("core/engine")
+	if checkAll == nil || sp == nil {
+		c.Anchor(id, "core/engine.(*runAwaitHandle).checkAllInstancesAreFinished")
+		return
+	}
+	n, okWho := 0, true
+	for _, g := range PkgFuncs(sp) {
+		if !IsProdFile(P.File(g.Pos())) {
+			continue
+		}
+		EachInstr(g, func(in ssa.Instruction) {
+			cc := CC(in)
+			if cc == nil {
+				return
+			}
+			if IsFieldCall(cc, "", field) || DerivesAny(cc.Value, false, IsResultOf(wc, 1)) {
+				n++
+				if g != checkAll {
+					okWho = false
+					c.Bad(id, fk(g)+":"+field+"-caller", in.Pos(), field+" (the aggregator's cancel) may only be called by checkAllInstancesAreFinished")
+				}
+			}
+		})
+	}
+	c.Check(okWho && n >= 1, id, key+":aggregator-cancelled-only-after-all-instances", checkAll.Pos(),
+		fmt.Sprintf("%d call(s) of %s, all in checkAllInstancesAreFinished (after close(runRes) proved every run result was awaited)", n, field))
+	// the cancel is reached on every path of checkAll that cancels the run
+	if okWho && n >= 1 {
+		var runCancel, aggCancel ssa.Instruction
+		EachInstr(checkAll, func(in ssa.Instruction) {
+			if cc := CC(in); cc != nil {
+				if IsFieldCall(cc, "", "runCancel") {
+					runCancel = in
+				}
+				if IsFieldCall(cc, "", field) {
+					aggCancel = in
+				}
+			}
+		})
+		if field != "runCancel" {
+			okPair := runCancel != nil && aggCancel != nil && (InstrDominates(runCancel, aggCancel) || InstrDominates(aggCancel, runCancel)) &&
+				NewPostDom(checkAll, false).PostDominates(aggCancel.Block(), runCancel.Block())
+			c.Check(okPair, id, fk(checkAll)+":aggregator-cancelled-whenever-run-is", checkAll.Pos(), "every path that calls runCancel also calls the aggregator's cancel (otherwise the aggregator never ends and the pool never finishes)")
+		}
+	}
+}
